@@ -1181,7 +1181,13 @@ identifier
 
 
 arguments
-    : /* empty */     { $$ = yr_strdup(""); }
+    : /* empty */
+      {
+        $$ = yr_strdup("");
+
+        if ($$ == NULL)
+          fail_with_error(ERROR_INSUFFICIENT_MEMORY);
+      }
     | arguments_list  { $$ = $1; }
 
 
